@@ -8,18 +8,17 @@ Theorem C10_order : forall V filt_str (l : list (analysis V)) i f args, Strongly
 Proof. exact sel_sorted. Qed.
 Print Assumptions C10_order.
 
-Theorem C10_deliveries_of_a_run : forall V filt_str as_path line_of (l : list (analysis V)) es st,
-  crashed st = false -> (cov st = None \/ all_ok V as_path es) ->
-  dels (run_events V filt_str as_path line_of l es st) = dels st ++ flat_map (ev_dels V filt_str l) es.
-Proof. intros V fs ap lo l es st H1 H2. exact (proj1 (run_events_dels V fs ap lo l es st H1 H2)). Qed.
+Theorem C10_deliveries_of_a_run : forall V filt_str as_path is_iid line_of (l : list (analysis V)) es st,
+  dels (run_events V filt_str as_path is_iid line_of l es st) = dels st ++ flat_map (ev_dels V filt_str l) es.
+Proof. intros V fs ap ii lo l es st. exact (proj1 (run_events_dels V fs ap ii lo l es st)). Qed.
 Print Assumptions C10_deliveries_of_a_run.
 
 (* every analysis receives exactly the sequence it receives when it is the only analysis
    (for ANY analyses: the engine never lets one analysis' answers influence what another receives) *)
-Theorem C10_isolation : forall V filt_str as_path line_of (l : list (analysis V)) es i a coverage,
-  nth_error l i = Some a -> (coverage = false \/ all_ok V as_path es) ->
-  own V i (dels (run_events V filt_str as_path line_of l es (init_state V coverage)))
-  = map (set_idx V i) (dels (run_events V filt_str as_path line_of [a] es (init_state V coverage))).
+Theorem C10_isolation : forall V filt_str as_path is_iid line_of (l : list (analysis V)) es i a coverage,
+  nth_error l i = Some a ->
+  own V i (dels (run_events V filt_str as_path is_iid line_of l es (init_state V coverage)))
+  = map (set_idx V i) (dels (run_events V filt_str as_path is_iid line_of [a] es (init_state V coverage))).
 Proof. exact isolation. Qed.
 Print Assumptions C10_isolation.
 
